@@ -1,6 +1,7 @@
 import WindVerif.Proofs.PoolSafe
 import WindVerif.Proofs.PoolLife
 import WindVerif.Proofs.PoolJoinTimeout
+import WindVerif.Proofs.PoolAlive
 /-!
 # C03 — A pool stays correct across consecutive calls and across worker replacement
 
@@ -84,5 +85,104 @@ theorem retired_still_ends (cfg : Cfg) (hjt : cfg.joinTimeout = true) (s : St) (
 example : jtCfg.joinTimeout = true := rfl
 example : (run (init jtCfg) (jtSched ++ [.w 0])).map (fun s => s.workers.map (fun w => (w.wid, w.pc, w.log))) =
     some [(0, .exited, [.begin, .item 0, .end_]), (1, .bfClear, [])] := by decide
+
+/-! ### how many worker processes are alive at once (Proofs/PoolAlive.lean)
+
+`aliveCnt s` = number of workers whose pc is neither `notStarted` nor `exited` (running processes); `notStartedCnt` = created
+but not started; `endingCnt` = retired workers inside `end()` (only with a join timeout); `unlistedCnt` = workers the pool
+does not list any more; `replCount s₀ sched` = steps of the replace thread along `sched` that create a successor. -/
+
+/-- **`join_timeout=None`: in every reachable state at most `nWorkers` worker processes are running.**  The replace thread
+joins the retired worker before it creates and starts the successor, so a replacement never raises the number of running
+processes (nor of the descriptors they hold).  No `+ 1` is needed: the successor is created (`notStarted`) only after the
+retired worker has exited (`successor_after_exit`) -/
+theorem alive_le_workers (cfg : Cfg) (hjt : cfg.joinTimeout = false) (s : St) (h : Reach cfg s) :
+    aliveCnt s ≤ cfg.nWorkers := by
+  first | exact WindVerif.Pool.alive_le_workers .. | (apply WindVerif.Pool.alive_le_workers <;> assumption)
+
+/-- … even counted together with the processes that are created but not yet started -/
+theorem alive_notStarted_le_workers (cfg : Cfg) (hjt : cfg.joinTimeout = false) (s : St) (h : Reach cfg s) :
+    aliveCnt s + notStartedCnt s ≤ cfg.nWorkers := by
+  first | exact WindVerif.Pool.alive_notStarted_le_workers .. | (apply WindVerif.Pool.alive_notStarted_le_workers <;> assumption)
+
+/-- `join_timeout=None`: a running worker is one of the listed ones -/
+theorem alive_listed (cfg : Cfg) (hjt : cfg.joinTimeout = false) (s : St) (h : Reach cfg s) (w : Worker)
+    (hw : w ∈ s.workers) (hr : running w.pc = true) : w.wid ∈ s.procs := by
+  first | exact WindVerif.Pool.alive_listed .. | (apply WindVerif.Pool.alive_listed <;> assumption)
+
+/-- `join_timeout=None`: whenever the replace thread is at its `join` for worker `wid` (the step that creates the
+successor), that worker has already exited -/
+theorem successor_after_exit (cfg : Cfg) (hjt : cfg.joinTimeout = false) (s : St) (h : Reach cfg s) (wid : Nat)
+    (hr : s.rpc = .join wid) : ∀ w ∈ s.workers, w.wid = wid → w.pc = .exited := by
+  first | exact WindVerif.Pool.successor_after_exit .. | (apply WindVerif.Pool.successor_after_exit <;> assumption)
+
+/-- every configuration (timed joins included): the running or created-but-not-started workers beyond `nWorkers` are
+retired workers still inside `end()` -/
+theorem alive_le_general (cfg : Cfg) (s : St) (h : Reach cfg s) :
+    aliveCnt s + notStartedCnt s ≤ cfg.nWorkers + endingCnt s := by
+  first | exact WindVerif.Pool.alive_le_general .. | (apply WindVerif.Pool.alive_le_general <;> assumption)
+
+/-- the pool lists exactly `nWorkers` wids in every reachable state (a replacement overwrites a slot) … -/
+theorem listed_length (cfg : Cfg) (s : St) (h : Reach cfg s) : s.procs.length = cfg.nWorkers := by
+  first | exact WindVerif.Pool.listed_length .. | (apply WindVerif.Pool.listed_length <;> assumption)
+
+/-- … no wid twice -/
+theorem listed_nodup (cfg : Cfg) (s : St) (h : Reach cfg s) : s.procs.Nodup := by
+  first | exact WindVerif.Pool.listed_nodup .. | (apply WindVerif.Pool.listed_nodup <;> assumption)
+
+/-- the number of workers ever created is `nWorkers` + the number of replacements performed; their wids are
+`0 … (number created) - 1` in creation order, and the wid counter is that number -/
+theorem created_eq (cfg : Cfg) (sched : List Tid) (s : St) (h : run (init cfg) sched = some s) :
+    s.workers.length = cfg.nWorkers + replCount (init cfg) sched ∧ s.widCounter = s.workers.length ∧
+    s.workers.map (·.wid) = List.range s.workers.length := by
+  first | exact WindVerif.Pool.created_eq .. | (apply WindVerif.Pool.created_eq <;> assumption)
+
+theorem created_le (cfg : Cfg) (sched : List Tid) (s : St) (h : run (init cfg) sched = some s) :
+    s.workers.length ≤ cfg.nWorkers + replCount (init cfg) sched := by
+  first | exact WindVerif.Pool.created_le .. | (apply WindVerif.Pool.created_le <;> assumption)
+
+/-- a plain `FunctorPool` never creates a worker after `__init__` -/
+theorem created_plain (cfg : Cfg) (hf : cfg.factory = false) (s : St) (h : Reach cfg s) :
+    s.workers.length = cfg.nWorkers := by
+  first | exact WindVerif.Pool.created_plain .. | (apply WindVerif.Pool.created_plain <;> assumption)
+
+/-- the number of workers ever created is `nWorkers` + the number of workers the pool does not list any more -/
+theorem created_unlisted (cfg : Cfg) (s : St) (h : Reach cfg s) : s.workers.length = cfg.nWorkers + unlistedCnt s := by
+  first | exact WindVerif.Pool.created_unlisted .. | (apply WindVerif.Pool.created_unlisted <;> assumption)
+
+/-- `join_timeout=None`: every worker that is not listed any more (every replaced worker) has exited -/
+theorem unlisted_exited (cfg : Cfg) (hjt : cfg.joinTimeout = false) (s : St) (h : Reach cfg s) (w : Worker)
+    (hw : w ∈ s.workers) (hn : w.wid ∉ s.procs) : w.pc = .exited := by
+  first | exact WindVerif.Pool.unlisted_exited .. | (apply WindVerif.Pool.unlisted_exited <;> assumption)
+
+/-- finite `join_timeout`: the bound fails — a reachable state of `jtCfg` (1 worker) with `nWorkers + 1` running worker
+processes: the retired worker 0 inside `end()`, its successor started -/
+theorem alive_exceeds_with_timeout :
+    ∃ sched s, jtCfg.joinTimeout = true ∧ run (init jtCfg) sched = some s ∧ aliveCnt s = jtCfg.nWorkers + 1 := by
+  first | exact WindVerif.Pool.alive_exceeds_with_timeout .. | (apply WindVerif.Pool.alive_exceeds_with_timeout <;> assumption)
+
+/-- finite `join_timeout`: the number of running processes grows with every replacement — `nWorkers + 2` after two -/
+theorem alive_grows_with_timeout :
+    ∃ sched s, jtCfg.joinTimeout = true ∧ run (init jtCfg) sched = some s ∧ replCount (init jtCfg) sched = 2 ∧
+      aliveCnt s = jtCfg.nWorkers + 2 := by
+  first | exact WindVerif.Pool.alive_grows_with_timeout .. | (apply WindVerif.Pool.alive_grows_with_timeout <;> assumption)
+
+/-- hence `alive_le_workers` without its hypothesis `cfg.joinTimeout = false` is false -/
+theorem alive_bound_needs_no_timeout : ¬ ∀ (cfg : Cfg) (s : St), Reach cfg s → aliveCnt s ≤ cfg.nWorkers := by
+  first | exact WindVerif.Pool.alive_bound_needs_no_timeout .. | (apply WindVerif.Pool.alive_bound_needs_no_timeout <;> assumption)
+
+/-- non-vacuity: `njCfg` (= `jtCfg` with `join_timeout=None`: 1 worker, factory, quota 1, a call of 2 chunks) meets the
+hypothesis; after the schedule `njSched` (worker 0 retires and exits, the replace thread joins it, creates, lists and starts
+worker 1) the bound is attained (1 running process = `nWorkers`), 2 workers have been created by 1 replacement, 1 worker is
+unlisted and it has exited; the replace thread is at its `join` for worker 0 one step before the creation -/
+example : njCfg.joinTimeout = false ∧ njCfg.factory = true ∧ njCfg.nWorkers = 1 := by decide
+example : (run (init njCfg) njSched).map
+    (fun s => (s.procs, s.workers.map (fun w => (w.wid, w.pc)), aliveCnt s, unlistedCnt s)) =
+    some ([1], [(0, .exited), (1, .bfClear)], 1, 1) ∧ replCount (init njCfg) njSched = 1 := by decide
+example : (run (init njCfg) (njSched.take 20)).map (fun s => (s.rpc, s.workers.map (fun w => (w.wid, w.pc)))) =
+    some (.join 0, [(0, .exited)]) := by decide
+/-- non-vacuity of `created_plain`: a plain pool -/
+example : (⟨2, none, none, false, none, false, [⟨1, true⟩], [], [], false, false⟩ : Cfg).factory = false := by decide
+
 
 end WindVerif.C03
